@@ -194,3 +194,78 @@ Theorem C17_assignment_order_refuted :
     generated esc_fix seal_edges_assigned h gens root jd <> generated esc_fix seal_edges_assigned h' gens root jd.
 Proof. exact assignment_order_refuted. Qed.
 Print Assumptions C17_assignment_order_refuted.
+
+(* "the same configuration", third part: the full identifier hashes the SORTED raw identifiers of the
+   pre-tasks, so t.add_pretasks(a, b) and t.add_pretasks(b, a) are one configuration, one job
+   directory.  The walk pushes "__pre_tasks__"/<index in the list>: in list order (seal_edges, the code
+   before fixes/C17-3.diff) a and b swap their generated paths                                   *)
+Theorem C17_pretask_order_refuted :
+  exists h h' gens root jd,
+    heap_repre h h' /\
+    generated esc_fix seal_edges h gens root jd <> generated esc_fix seal_edges h' gens root jd /\
+    exists l l' e e', generated esc_fix seal_edges h gens root jd = Some l /\
+      generated esc_fix seal_edges h' gens root jd = Some l' /\ In e l /\ In e' l' /\
+      g_node e <> g_node e' /\ g_path e = g_path e'.
+Proof. exact pretask_order_refuted. Qed.
+Print Assumptions C17_pretask_order_refuted.
+
+(* the repaired Sealer visits them in the order of their raw identifiers (idk t = identifier of t;
+   seal_edges_sorted decls idk = parameters in declaration order, pre-tasks in identifier order):
+   the order in which they were added is irrelevant when the pre-tasks attached to one configuration
+   have pairwise different identifiers                                                          *)
+Theorem C17_pretask_order_irrelevant : forall esc decls idk h h' gens root jd,
+  heap_repre h h' -> pre_ids_distinct idk h ->
+  generated esc (seal_edges_sorted decls idk) h gens root jd
+  = generated esc (seal_edges_sorted decls idk) h' gens root jd.
+Proof. exact pretask_order_irrelevant. Qed.
+Print Assumptions C17_pretask_order_irrelevant.
+
+Theorem C17_assignment_order_irrelevant_sorted : forall esc decls idk h h' gens root jd,
+  heap_reassigned h h' ->
+  generated esc (seal_edges_sorted decls idk) h gens root jd
+  = generated esc (seal_edges_sorted decls idk) h' gens root jd.
+Proof. exact assignment_order_irrelevant_sorted. Qed.
+Print Assumptions C17_assignment_order_irrelevant_sorted.
+
+(* ... and it is the walk of the theorems above on the heap put in that normal form *)
+Theorem C17_generated_sorted_norm : forall esc decls idk h gens root jd,
+  generated esc (seal_edges_sorted decls idk) h gens root jd
+  = generated esc seal_edges (map (norm_node decls idk) h) gens root jd.
+Proof. exact generated_sorted_norm. Qed.
+Print Assumptions C17_generated_sorted_norm.
+
+Theorem C17_sorted_inside_distinct : forall decls idk h gens root jd l,
+  names_wf (map (norm_node decls idk) h) -> task_targets_cut (map (norm_node decls idk) h) ->
+  (forall c af, In c gens -> In af c -> plain (snd af) = true) ->
+  generated esc_fix (seal_edges_sorted decls idk) h gens root jd = Some l ->
+  (forall e, In e l ->
+     exists comps, comps <> [] /\ Forall (fun c => plain c = true) comps /\
+       g_path e = {| p_root := p_root jd; p_parts := p_parts jd ++ comps |}) /\
+  (forall e1 e2, In e1 l -> In e2 l ->
+     (g_node e1, g_file e1) <> (g_node e2, g_file e2) -> g_path e1 <> g_path e2).
+Proof. exact sorted_inside_distinct. Qed.
+Print Assumptions C17_sorted_inside_distinct.
+
+(* "private and distinct" read as NON-OVERLAPPING: no generated path is a folder on the way to another
+   generated path (proper_prefix p q: q lies strictly below p).  It needs two more hypotheses:
+   no generated file name of a configuration is the first key under which one of its entered
+   sub-configurations is placed (no_file_key_clash), and the task itself generates no file called
+   "out" (root_files_not_out) - everything below the task lives in <job>/out/...               *)
+Theorem C17_prefix_free : forall h gens root jd l e1 e2,
+  names_wf h -> task_targets_cut h ->
+  (forall c af, In c gens -> In af c -> plain (snd af) = true) ->
+  no_file_key_clash esc_fix seal_edges h gens -> root_files_not_out h gens root ->
+  generated esc_fix seal_edges h gens root jd = Some l -> In e1 l -> In e2 l ->
+  ~ proper_prefix (g_path e1) (g_path e2).
+Proof. exact prefix_free_wf. Qed.
+Print Assumptions C17_prefix_free.
+
+(* without them it fails under every hypothesis of C17_distinct_wf: task with pathgenerator("out")
+   and a parameter a -> <job>/out is a file and the folder of <job>/out/a/...; configuration with
+   pathgenerator("b") and a parameter b -> <job>/out/a/b is a file and the folder of <job>/out/a/b/c *)
+Theorem C17_prefix_free_refuted : exists h gens root jd l e1 e2 e3,
+  names_wf h /\ task_targets_cut h /\ (forall c af, In c gens -> In af c -> plain (snd af) = true) /\
+  generated esc_fix seal_edges h gens root jd = Some l /\ In e1 l /\ In e2 l /\ In e3 l /\
+  proper_prefix (g_path e1) (g_path e2) /\ proper_prefix (g_path e2) (g_path e3).
+Proof. exact prefix_free_refuted. Qed.
+Print Assumptions C17_prefix_free_refuted.
